@@ -12,6 +12,12 @@ DESCR = {
                          "generated/DriverGen.v; the refinement generated code -> model (proofs/DriverTie.v, for all arguments) is "
                          "compiled with the property's theorem file; one case per translated function"),
     "translate_core": ("G:tracker source translator", "see core_units.g_unit"),
+    "translate_coreopt": ("G:core-moves source translator",
+                          "ast translation (harness/pytrans.py, fail-closed) of CoreOptimizer.move_random, conv2pos, move_climb and the "
+                          "random_iteration wrapper of core_optimizer.py into generated/CoreGen.v: loops, the constraint test before every return, "
+                          "the far-outside escape and the restart test are translated; the numpy float-vector arithmetic (sampler, rint, clip, "
+                          "cdist threshold) is pinned by source text to the primitives of theories/CoreOpt.v, utils.move_random by digest; "
+                          "proofs/CoreTie.v proves the generated move_random / conv2pos equal to the model and move_climb input/output-equivalent"),
     "translate_results": ("G:results-manager source translator",
                           "ast translation (harness/pytrans.py, fail-closed) of the closure ResultsManager.score(objective)._wrapper(pos) of "
                           "_results_manager.py into generated/ResGen.v; _obj_func_results, __init__ and search_data are pinned by digest, the row "
@@ -59,7 +65,7 @@ def g_unit(ctx, modname):
     return u
 
 
-ALL_TRANSLATORS = ["translate_core", "translate_driver", "translate_grid", "translate_search", "translate_memory", "translate_results"]
+ALL_TRANSLATORS = ["translate_core", "translate_driver", "translate_grid", "translate_search", "translate_memory", "translate_results", "translate_coreopt"]
 
 
 def refresh_all(ctx):
